@@ -441,7 +441,7 @@ pub fn aiow_handler(a: &[&str]) -> String {
     let mut cx = Context::from_waker(&waker);
     let budget = sched.len() + 8 * vals.len();
     let snk = ScriptedAsyncWrite { writes: Vec::new(), sched, calls: 0, zeros: 0, budget };
-    let mut w = if vals.len() % 3 == 1 { AsyncWriter::with_buffer(snk, Vec::with_capacity(16)) } else { AsyncWriter::new(snk) };
+    let mut w = if vals.len() % 3 == 1 { AsyncWriter::with_buffer(snk, Vec::with_capacity(16)) } else if vals.len() % 3 == 2 { AsyncWriter::with_buffer(snk, Vec::with_capacity(100_000)) } else { AsyncWriter::new(snk) };
     w.set_max_len(max);
     let limit = 2 * toks.len() + 8;
     let mut evss: Vec<String> = Vec::new();
